@@ -40,6 +40,13 @@ def model_variants(net):
 
 
 def check_model(net, bounds, ruleset, stats, rich=False):
+    out = []
+    for origin in ("fresh", "observed"):
+        out.extend(_check_model(net, bounds, ruleset, stats, rich, origin))
+    return out
+
+
+def _check_model(net, bounds, ruleset, stats, rich=False, origin="fresh"):
     import numpy as np
     import pandas as pd
     from cobra.flux_analysis import (double_gene_deletion, double_reaction_deletion, find_essential_genes,
@@ -59,6 +66,11 @@ def check_model(net, bounds, ruleset, stats, rich=False):
         warnings.simplefilter("ignore")
         model = families.build_model(mets, rxns, rules=rules_text)
     model.objective = {model.reactions.get_by_id(oid): 1}
+    if origin == "observed":
+        # the model has been read through the public API before (copies of its parts, string forms, a solve, summaries)
+        from .. import prehistory
+
+        prehistory.observe_everything(model)
     out = []
     cache = {}
 
@@ -74,10 +86,14 @@ def check_model(net, bounds, ruleset, stats, rich=False):
     def mk(fn, **kw):
         c = {"net": [list(x) for x in net], "bounds": [[_j(a), _j(b)] for a, b in bounds], "rules": list(ruleset), "fn": fn}
         c.update(kw)
+        if origin != "fresh":
+            c["origin"] = origin
         return c
 
     def bad(case, check, detail, **extra):
         s = {"fn": case["fn"], "check": check, "method": case.get("method", "fba")}
+        if origin != "fresh":
+            s["origin"] = origin
         s.update(extra)
         out.append((s, case, f"{detail}\nmodel {rxns}\nrules {rules_text}\ncase {case}"))
 
